@@ -51,6 +51,7 @@ else:
      _tier('ev', 'invert', 1, [(3, {})], [(4, {})]), _tier('ev', 'invert', 0, [], [(3, {})]),         # 46 s / 851
      _tier('ev', 'flip', 1, [(2, {})], [(3, {})]), _tier('ev', 'flip', 0, [], [(3, {})]), _tier('ev', 'flip', 2, [], [(3, {})]),   # 28 s / 1249 (MAXE=2); vector result 115-168 s / 3.8 GB at MAXE=3
      _tier('ev', 'slice', 0, [(2, {})], [(3, {})]), _tier('ev', 'slice', 1, [], [(3, {})]),           # 43 s / 724 (MAXE=2)
+     _tier('ev', 'reshape0', 0, [(2, {})], [(2, {})]), _tier('ev', 'reshape0', 1, [(2, {})], [(2, {})]),   # 0-d result of reshape to the empty shape
      _tier('ev', 'slice_empty', 0, [(3, {})], [(4, {})]), _tier('ev', 'slice_empty', 1, [(2, {})], [(3, {})]),   # zero-extent view: shapes only
      _tier('ev', 'add_scalar', 0, [(2, {})], [(3, {})]), _tier('ev', 'add_scalar', 1, [], [(2, {})]),  # 47 s / 2387 (MAXE=2)
      _tier('ev', 'sum', 1, [(2, {})], [(2, {})]),                                # 124 s / 2224 (MAXE=2); MAXE=3: no verdict in 300 s
